@@ -1143,7 +1143,7 @@ def gen_build_config(rng, n, substs=(), feed=False):
         for i in named:
             if kinds[i] in ("str", "ma_fk", "ma_uk") and subs[i] in ("none", "num") and rng.random() < 0.7:
                 subs[i] = rng.choice(["expr", "expruk"])
-    cfg["alias"] = builder == "create_odesys" and rng.random() < 0.3
+    cfg["alias"] = rng.random() < 0.3   # both builders name the variables by key
     cfg["opts"] = rng.random() < 0.3
     cfg["preother"] = rng.random() < 0.2
     cfg["rebuild"] = rng.random() < 0.2
